@@ -20,8 +20,8 @@ CLAIMS = {
          "6.C05", "rxeq language VCs with capture/back-reference letters; pinned second specs for known findings"),
  "C07": ("other", "START-a/b/c, END, UNIT, ENTRY, CLOSED for every instruction-level and operand-level node class, and for whole compiled item-list rules; get_first_addr POST. Level 'other' because the register-family capture findings (optional comma) also break END at operand level and the shipped @any macro admits '|' (listed).",
          "6.C07", "rxeq START/END/UNIT VCs"),
- "C06": ("other", "Compiler half proved for all inputs: PatternNodeDeref/DerefObjectBuilder/DerefObject on every present/absent combination (index and scale together), opaque components, opaque names and concrete representative names, times wrappers; language-equal to [a(+b*c)?(+k)?], with optional % / 0x, exact brackets, comma terminator. The parser half (operand normal form) and the joint lemma are C09's obligations; until those contract files exist this claim is level 'other' (compiler side only).",
-         "6.C06", "rxeq language equality of the real deref regex against the bracket-form specification"),
+ "C06": ("proof", "Compiler half proved for all inputs: PatternNodeDeref/DerefObjectBuilder/DerefObject on every present/absent combination (index and scale together), opaque components, opaque names and concrete representative names, times wrappers; language-equal to [a(+b*c)?(+k)?], with optional % / 0x, exact brackets, comma terminator. Parser half: OperandsParser._process_operand_elem on every memory-operand form with symbolic components yields exactly [a+b*c+k] / [a+b*c] / [+b*c+k] / [a+k] / [a] (symre on structured strings); the joint statement follows because the normal-form text is an instance of the specification language with the same present components.",
+         "6.C06", "rxeq language equality of the real deref regex against the bracket-form specification + symbolic execution of the operand normaliser on structured strings"),
  "C11": ("proof", "Loop invariant over the symbolic sequence M = finditer(rule, stream): addr_list = map(f, M[:k]), nothing else appended; first-match = search; exactly one engine call with (rule, whole stream); START/END of every instruction-level node (so the hits T-regex reports are record-aligned and non-overlapping). The scan properties themselves (leftmost, non-overlapping, complete) are T-regex, assumed.",
          "6.C11", "T1 loop rule with explicit inductive invariant on the real do_match_all_findings + rxeq START/END VCs"),
  "C12": ("proof", "MatchedObserver invariant matched <=> addr_list != []; POST of _do_matching_and_get_result for the 2x2x3 mode combinations: the value returned is a field of the one observer; FRAME: the engine call does not depend on return mode / address-only flag; first-match vs all-matches only selects search vs finditer.",
@@ -36,6 +36,14 @@ CLAIMS = {
          "6.C18", "z3 integer VCs on path conditions of the real observer"),
  "C20": ("proof", "parse_args_from_console on every combination of the options (exhaustive over option presence: 144 command lines); main(): Namespace -> MatchConfig plumbing with opaque values for all 16 flag combinations, one perform_matching call, no try on the path to the interpreter; log records: one 'Matched address' INFO record per appended element (loop invariant) and 'RESULT: Pattern found' iff matched; default logger configuration.",
          "6.C20", "symbolic execution of main with stubs + exhaustive argparse enumeration + ghost log invariants"),
+ "C08": ("proof", "Relative to the objdump line grammar G (assumed, appendix B): the real LineParser.parse runs on every line shape of G with all variable parts symbolic (structured strings; re.match groups derived by uniqueness VCs): instruction lines yield an Instruction carrying the line's address and first instruction token, continuation lines the dropped pseudo-instruction, every other line kind no instruction, no shape raises; every operand text of G is normalised without exception; pipeline loop invariant: exactly the Instruction results reach the consumer, in order.",
+         "6.C08", "symbolic execution on structured strings + symre (group uniqueness as annotated-language VCs) + T1 loop invariant"),
+ "C09": ("proof", "get_splitted_operands on every mix of 1-3 operand forms (quick: 8 representative forms for triples, thorough: all 14) splits exactly at the commas between operands; _process_operand_elem maps each of the forms of the statement to its normal form, components symbolic; parse() preserves number and order (symbolic sequence).",
+         "6.C09", "symre split/search on structured strings; POST equality of structured results"),
+ "C10": ("other", "Instruction.stringify / consume_instruction / finalize produce addr::mnemonic,op,...,| records concatenated in order (symbolic fields, symbolic operand sequence); CLEAN: address, mnemonic and every normalised operand form of G contain no ',', '|' or '::'. Unique decodability then is a paper lemma over this grammar. 'other' because branch-hint mnemonics (jo,pn) violate CLEAN on the unchanged tree (listed known finding).",
+         "6.C10", "POST on the encoder + CLEAN language VCs on the parser's result fields"),
+ "C16": ("proof", "Same obligations as C08: in every line shape the padding, byte column, annotation and comment are universally quantified variables that do not occur in the result term (addr, mnemonic, operand token only); label / blank / header / section / elision lines yield no instruction. Scope: listings with a raw-byte column (grammar G); free text that does not contain the keyword data16.",
+         "6.C16", "symbolic execution on structured strings: presentation variables absent from the result"),
 }
 TODO = {}
 checks = []
